@@ -234,7 +234,7 @@ def gen_hh(rng, default=False):
 
 def gen_cases(rng, tier):
     cases = []
-    ngw, nwd, nhh = (400, 200, 120) if tier == "quick" else (3000, 1200, 800)
+    ngw, nwd, nhh = (300, 150, 90) if tier == "quick" else (3000, 1200, 800)
     for _ in range(ngw):
         cases.append(gen_gridworld(rng))
     if tier != "quick":
@@ -760,7 +760,7 @@ def run(ctx):
             terms.append(cliff_term(case, res))
         meta.append(("mirror", i, None))
 
-    vals = ctx.coq(PRE, terms, shard=10 if tier == "quick" else 60)
+    vals = ctx.coq(PRE, terms, shard=30 if tier == "quick" else 80)
     nwf = nmir = 0
     distinct = set()
     mirror_diffs = {}
